@@ -291,6 +291,9 @@ func (re *Regexp) forEachStringMatch(s string, n int, f func(*regexp2.Match)) {
 		if m.RuneLength != 0 || m.RuneIndex != prevEnd {
 			f(m)
 			prevEnd = m.RuneIndex + m.RuneLength
+			if re.re.RightToLeft() {
+				prevEnd = m.RuneIndex
+			}
 			if n > 0 {
 				n--
 				if n == 0 {
